@@ -6,10 +6,14 @@ package protoutil
 
 // AsStringList only reads its argument and builds a new slice of the same length.
 //@ func AsStringList
-//@   property C01
+//@   property C01 C02
+//@   option prelude=opt
 //@   pure
+//@   loop 1 invariant elems: rangeindex < len(src.Values) && soff(out) == 0 && len(out) == len(src.Values) &&
+//@       (forall j :: 0 <= j && j <= rangeindex ==> out[j] == pbstr(src.Values[j]))
 //@   ensures nil: src == nil ==> len(result) == 0
 //@   ensures len: src != nil ==> len(result) == len(src.Values)
+//@   ensures elems: src != nil ==> soff(result) == 0 && (forall j :: 0 <= j && j < len(result) ==> result[j] == pbstr(src.Values[j]))
 
 // NewListFromStrings builds a fresh list value; it only reads its argument.
 //@ func NewListFromStrings
